@@ -320,6 +320,13 @@ def extract_inputs(trace):
             n = int(v['binary'], 2)
     if n is None:
         n = (max(vals) + 1) if vals else 0
+    if not vals:
+        # SMT back ends with --slice-formula drop the (property-irrelevant) verif_in[] log; in_u64() is the only caller of
+        # nondet_u64(), so the ordered return values of nondet_u64 are the same input vector
+        seq = [int(st['value']['binary'], 2) for st in trace if st.get('stepType') == 'assignment'
+               and st.get('lhs', '') == 'return_value_nondet_u64' and 'binary' in st.get('value', {})]
+        if seq:
+            return seq[:512]
     return [vals.get(i, 0) for i in range(min(n, 512))]
 
 
